@@ -184,7 +184,11 @@ func init() {
 				}
 				for _, c := range CallsTo(fn, "keeper.Keeper.upsertDelegationWithNewTokens", "keeper.Keeper.reduceDelegationShares", "keeper.Keeper.ClearDustDelegation") {
 					d := argT(fa, c, 1)
-					r.Check(d.Op == "param", fk, "passes its own delegator to "+CalleeKey(c.Common()), "delAddr parameter", "a position of another account ("+d.String()+") is modified", r.P(c))
+					okD := d.Op == "param"
+					if !okD && d.Op == "extract" && d.Args[0].IsCall("sdk.AccAddressFromBech32") && strings.Contains(d.String(), "MustUnmarshal@") {
+						okD = true // the owner recorded in the record being processed (slash callback)
+					}
+					r.Check(okD, fk, "passes its own delegator to "+CalleeKey(c.Common()), "delAddr parameter, or the owner parsed from the record being processed", "a position of another account ("+d.String()+") is modified", r.P(c))
 				}
 			}
 		}})
